@@ -1,6 +1,6 @@
 (* C07 -- property theorems only: statement + exact + Print Assumptions. *)
-From Coq Require Import List ZArith.
-From LJT Require Import gen.GenDctConst model.Quant model.Dct proofs.QuantCert proofs.QuantProofs proofs.DctProofs proofs.DctRange.
+From Coq Require Import List ZArith Reals.
+From LJT Require Import gen.GenDctConst model.Quant model.Dct proofs.QuantCert proofs.QuantProofs proofs.DctProofs proofs.DctRange proofs.RmsBound.
 Import ListNotations.
 Local Open Scope Z_scope.
 
@@ -90,6 +90,22 @@ Theorem C07_const_image_bound : forall cf v qtbl,
     forall s, In s out -> Z.abs (s - v) <= (nth 0 qtbl 0 + 15) / 16 + 1.
 Proof. exact const_image_bound_proof. Qed.
 Print Assumptions C07_const_image_bound.
+
+(* (4) partial: block error norm from the per-coefficient bound, over the reals, for ANY orthogonal
+   transform A; the fixed-point errors e1 (forward), e2 (inverse + rounding) are hypotheses, and that
+   the DCT cosine matrix is orthogonal is not proved.  The full clause is RmsBound.rms_bound_full. *)
+Theorem C07_rms_bound_partial : forall (n : nat) (A : nat -> nat -> R),
+  (forall i j, (i < n)%nat -> (j < n)%nat -> rsum n (fun k => A k i * A k j) = delta i j)%R ->
+  (forall k l, (k < n)%nat -> (l < n)%nat -> rsum n (fun i => A k i * A l i) = delta k l)%R ->
+  forall (x F D y h : nat -> R) (e1 e2 qn : R),
+    (0 <= e1 -> 0 <= e2 -> 0 <= qn ->
+     norm2 n (fun k => F k - ap n A x k) <= e1 * e1 ->
+     (forall k, (k < n)%nat -> Rabs (D k - F k) <= h k) ->
+     rsum n (fun k => h k * h k) <= qn * qn ->
+     norm2 n (fun i => y i - ap n (tr A) D i) <= e2 * e2 ->
+     norm2 n (fun i => y i - x i) <= (qn + e1 + e2) * (qn + e1 + e2))%R.
+Proof. exact rms_bound_partial_proof. Qed.
+Print Assumptions C07_rms_bound_partial.
 
 (* range limiting (incl. the RANGE_MASK wrap) never moves a value away from an in-range sample *)
 Theorem C07_clamp_nonexpansive : forall cf x v, cfg_ok cf -> 0 <= v <= maxsample cf -> - 2 ^ 31 <= x < 2 ^ 31 ->
